@@ -426,6 +426,8 @@ def not_identical_val(ty, v, envd=None):
         return not_identical_val(ty["f"], v, envd)
     if t == "prim":
         return ty["f"]["t"] == "num" and ty["f"]["k"] == "Float" and isinstance(v, int) and not isinstance(v, bool)
+    if t == "set" and isinstance(v, list) and len({repr(x) for x in v}) > 1:
+        return True       # str() of a set follows its iteration order, which depends on the insertion order
     if t in ("array", "set") and isinstance(v, list):
         return any(not_identical_val(ty["item"], x, envd) for x in v)
     if t == "ref" and isinstance(v, dict) and envd is not None:
